@@ -211,6 +211,23 @@ def _cells(ctx, rng, tier):
             cells += gen.children(base, r)
         for _ in range(1500 if tier == "quick" else 20000):
             cells.append(gen.rand_cell(rng, res=rng.randrange(5, 16), bc=bc))
+    # sparse digit strings under the pentagon base cells: one non-zero digit, a (long) run of zeros, a second non-zero
+    # digit.  The leading-digit helpers (_h3LeadingNonZeroDigit and the rotations keyed on it) see the first one only
+    # after skipping / scanning the zeros, at every run length; random digit strings almost never contain such runs
+    # (seeded change C03g: a 10-digit block test that loses the top bit of digit 1)
+    rs = (6, 9, 10, 11, 12, 13, 15) if tier == "quick" else range(3, 16)
+    for bc in gen.PENT:
+        for res in rs:
+            for d1 in range(1, 7):
+                for p1 in sorted({0, 1, res // 2}):
+                    for p2 in sorted({p1 + 1, res - 1, rng.randrange(p1 + 1, res)} if p1 + 1 < res else {res - 1}):
+                        if p2 <= p1:
+                            continue
+                        for d2 in sorted({1, 5, rng.randrange(1, 7)}):
+                            ds = [0] * res
+                            ds[p1] = d1
+                            ds[p2] = d2
+                            cells.append(gen.mkcell(res, bc, gen.fix_pent(bc, ds)))
     return list(dict.fromkeys(cells)), nedges
 
 
